@@ -134,7 +134,7 @@ def cross_check(requests, replies, rng, sample=40, timeout=600):
         src += f"Eval vm_compute in ({render(*requests[i])}).\n"
     tmpd = os.path.join(VERIF, "work", "vmcheck")
     os.makedirs(tmpd, exist_ok=True)
-    name = "vm_" + hashlib.sha1(src.encode()).hexdigest()[:12]
+    name = "vm_" + hashlib.sha1(src.encode()).hexdigest()[:12] + f"_{os.getpid()}"      # unique per process: concurrent checks may sample the same requests
     path = os.path.join(tmpd, name + ".v")
     with open(path, "w") as f:
         f.write(src)
